@@ -447,7 +447,7 @@ func workerMain(t *testing.T) {
 	outPath := os.Getenv("VERIF_OUT")
 	replayDir := os.Getenv("VERIF_REPLAY_DIR")
 	if replayDir == "" {
-		replayDir = "/verif/replays"
+		replayDir = "replays"
 	}
 	os.MkdirAll(replayDir, 0755)
 
